@@ -329,13 +329,15 @@ def write_json(path, obj):
     return path
 
 
-def judge_trace(rep, bd, events, name, module="MC_Judge", tag="judge", key_of=None):
+def judge_trace(rep, bd, events, name, module="MC_Judge", tag="judge", key_of=None, env=None, consts=None, library=None):
     """Writes events as ndjson, lets TLC validate them with <module>.tla, turns rejected lines into violations."""
     trace = os.path.join(bd, tag + ".ndjson")
     with open(trace, "w") as f:
         for ev in events:
             f.write(json.dumps(ev, default=str) + "\n")
-    r = run_tlc(module, module + ".cfg", bd, env={"TRACE_FILE": trace}, workers=1, coverage=False, tag=tag, timeout=3000)
+    e = {"TRACE_FILE": trace}
+    e.update(env or {})
+    r = run_tlc(module, module + ".cfg", bd, env=e, workers=1, coverage=False, tag=tag, timeout=3000, consts=consts, library=library)
     rep.add_tlc(name + " (%d events)" % len(events), r)
     if r.distinct != len(events) + 1:
         raise MachineryError("trace not consumed: %d states for %d events (%s)" % (r.distinct, len(events), name))
